@@ -90,6 +90,8 @@ Definition header_field (lib : hlib) (kind : Z) (f : list Z) : outcome unit :=
   let '(t, v) := tv in
   if (kind =? kSQ) && zeqb t tagM5 then
     if negb (h_field lib kind t v) then Err 3 (* duplicate tag *) else
+    (* if len(f[3:]) > 32 { return errBadHeader }; if hex.DecodedLen(len(f[3:])) > len(hb) { ... } *)
+    if 32 <? zlen v then Err 1 else
     if 16 <? zlen v / 2 then Err 1 else
     hb <- hex_decode 16 0 v (S (length v)) ;;
     if zlen hb =? 16 then Ok tt else Err 1
@@ -110,9 +112,21 @@ Definition tagged_line (lib : hlib) (kind minf : Z) (l : list Z) : outcome unit 
   _ <- header_fields lib kind (skipn 1 fields) ;;
   if h_line lib kind fields then Ok tt else Err 1).
 
-(** commentLine: fields[1]. *)
+(** bytes.SplitN(l, tab, 2): cut at the first separator only. *)
+Fixpoint splitn2 (sep : Z) (l : list Z) : list (list Z) :=
+  match l with
+  | [] => [[]]
+  | x :: t =>
+    if x =? sep then [[]; t]
+    else match splitn2 sep t with
+         | h :: r => (x :: h) :: r
+         | [] => [[x]]
+         end
+  end.
+
+(** commentLine: fields := bytes.SplitN(l, tab, 2); fields[1]. *)
 Definition comment_line (l : list Z) : outcome unit :=
-  let fields := split_on 9 l in
+  let fields := splitn2 9 l in
   if zlen fields <? 2 then Err 1 else
   chk (inb fields 1) (Ok tt).
 
@@ -308,8 +322,8 @@ Fixpoint b_elems (lib : auxlib) (st : Z) (w : nat) (nf : list (list Z)) : outcom
   end.
 
 Definition parse_aux (lib : auxlib) (text : list Z) : outcome (list Z) :=
-  (* if len(text) < 6 || text[2] != ':' || text[4] != ':' *)
-  if zlen text <? 6 then Err 1 else
+  (* if len(text) < 5 || text[2] != ':' || text[4] != ':' *)
+  if zlen text <? 5 then Err 1 else
   chk (inb text 2) (
   if negb (getz text 2 =? 58) then Err 1 else
   chk (inb text 4) (
@@ -331,7 +345,8 @@ Definition parse_aux (lib : auxlib) (text : list Z) : outcome (list Z) :=
     chk (make_ok (zlen txt / 2)) (
     b <- hex_decode (zlen txt / 2) 0 txt (S (length txt)) ;; Ok ([t0; t1; 72] ++ b))
   else if typ =? 66 then                              (* 'B' *)
-    nf <- (if negb (zlen txt =? 1) then
+    if zlen txt =? 0 then Err 1 else
+    nf <- (if 1 <? zlen txt then
              chk (inb txt 1) (
              if negb (getz txt 1 =? 44) then Err 1 else
              chk (slice_ok txt 2 (zlen txt)) (Ok (split_on 44 (sub txt 2 (zlen txt)))))
@@ -389,7 +404,8 @@ Definition aux_string (a : list Z) : outcome unit :=
 
 (** [b] is what ReadBytes('\n') returned, [eof] whether it reported io.EOF
     (any other error is returned as is and not modelled). Returns the line
-    handed to UnmarshalSAM. *)
+    handed to UnmarshalSAM (possibly empty: UnmarshalSAM then rejects it for
+    its field count, [sam_field_count]). *)
 Definition sam_read_line (b : list Z) (eof : bool) : outcome (list Z) :=
   b1 <- (if eof then (if zlen b =? 0 then Err 9 else Ok b)
          else chk (slice_ok b 0 (zlen b - 1)) (Ok (sub b 0 (zlen b - 1)))) ;;
@@ -397,7 +413,11 @@ Definition sam_read_line (b : list Z) (eof : bool) : outcome (list Z) :=
            chk (inb b1 (zlen b1 - 1)) (
            if getz b1 (zlen b1 - 1) =? 13 then chk (slice_ok b1 0 (zlen b1 - 1)) (Ok (sub b1 0 (zlen b1 - 1))) else Ok b1)
          else Ok b1) ;;
-  if zlen b2 =? 0 then Err 1 else Ok b2.
+  Ok b2.
+
+(** The first statements of Record.UnmarshalSAM: f := bytes.Split(b, tab); if len(f) < 11 { error }. *)
+Definition sam_field_count (b : list Z) : outcome (list (list Z)) :=
+  let f := split_on 9 b in if zlen f <? 11 then Err 1 else Ok f.
 
 (* --------------------------------------------------- correspondence cases *)
 
